@@ -16,7 +16,7 @@ func init() {
 			"is a branch to a panic or error exit that lies on every path to a normal return, against the documented constant (evaluated from the initialisers); the square roots apply the +1 correction exactly when r² < d, in both precisions; the rounding-mode dispatch of DivIntByU64ToBigDec selects the matching division; SigFigRound does not write its argument.",
 		NotCovered:  []string{"every numeric error bound (Exp2 10^-18, LogBase2 10^-32, Pow precision, sig-fig half-unit)", "monotonicity of the square roots", "binary-search post-conditions"},
 		Assumptions: []string{"math/big.Int.Sqrt returns the floor square root"},
-		MinObl:      83,
+		MinObl:      95,
 		Run:         runC13,
 	})
 }
@@ -113,6 +113,25 @@ func runC13(c *rules.Ctx) {
 		}
 		c.WhenReturn(M+fn, "eq(e.RoundingDir,2) & "+ty+".LT(expected,actual)", 0, "-1", "rounding down requested and the image above the target: reported as too large (never accepted)")
 		c.WhenReturn(M+fn, "eq(e.RoundingDir,1) & "+ty+".GT(expected,actual)", 0, "1", "rounding up requested and the image below the target: reported as too small (never accepted)")
+	}
+	// tolerance comparisons: "within tolerance" (0) is reported only when both configured tolerances were consulted and
+	// met — the relative error being the exact decimal quotient |expected−actual| / min(|expected|,|actual|)
+	type cmpSib struct{ fn, diff, minv, gt, quo, addTol, mulTol, eq string }
+	for _, v := range []cmpSib{
+		{"ErrTolerance.Compare", "sdkmath.LegacyDec.Abs(sdkmath.LegacyDec.Sub(sdkmath.Int.ToLegacyDec(expected),sdkmath.Int.ToLegacyDec(actual)))", "sdkmath.Int.ToLegacyDec(sdkmath.MinInt(sdkmath.Int.Abs(expected),sdkmath.Int.Abs(actual)))", "sdkmath.LegacyDec.GT", "sdkmath.LegacyDec.Quo", "e.AdditiveTolerance", "e.MultiplicativeTolerance", "sdkmath.Int.Equal(expected,actual)"},
+		{"ErrTolerance.CompareBigDec", "osmomath.BigDec.Abs(osmomath.BigDec.Sub(expected,actual))", "osmomath.MinBigDec(osmomath.BigDec.Abs(expected),osmomath.BigDec.Abs(actual))", "osmomath.BigDec.GT", "osmomath.BigDec.Quo", "osmomath.BigDecFromDec(e.AdditiveTolerance)", "osmomath.BigDecFromDec(e.MultiplicativeTolerance)", "osmomath.BigDec.Equal(expected,actual)"},
+		{"ErrTolerance.CompareDec", "sdkmath.LegacyDec.Abs(sdkmath.LegacyDec.Sub(expected,actual))", "sdkmath.MinDec(sdkmath.LegacyDec.Abs(expected),sdkmath.LegacyDec.Abs(actual)) | sdkmath.LegacyMinDec(sdkmath.LegacyDec.Abs(expected),sdkmath.LegacyDec.Abs(actual))", "sdkmath.LegacyDec.GT", "sdkmath.LegacyDec.Quo", "e.AdditiveTolerance", "e.MultiplicativeTolerance", "sdkmath.LegacyDec.Equal(expected,actual)"},
+	} {
+		if c.FnOpt(M+v.fn) == nil {
+			continue
+		}
+		relTest := v.gt + "(" + v.quo + "(" + v.diff + ", _), " + v.mulTol + ")"
+		c.BranchOn(M+v.fn, relTest, nil, "the relative error compared with the multiplicative tolerance is |expected−actual| divided (as a decimal) by a value derived from the operands")
+		c.CallArg(M+v.fn, v.quo+"[0="+v.diff+"]", 1, v.minv, "…the divisor being min(|expected|,|actual|)")
+		c.OnlyWhenReturn(M+v.fn, "0", v.eq+" | sdkmath.LegacyDec.IsNil(e.MultiplicativeTolerance) | sdkmath.LegacyDec.IsZero(e.MultiplicativeTolerance) | not("+relTest+")",
+			"0 (within tolerance) is returned only when the operands are equal, no multiplicative tolerance is configured, or the relative error was found within it")
+		c.OnlyWhenReturn(M+v.fn, "0", v.eq+" | sdkmath.LegacyDec.IsNil(e.AdditiveTolerance) | not("+v.gt+"("+v.diff+", "+v.addTol+"))",
+			"0 (within tolerance) is returned only when the operands are equal, no additive tolerance is configured, or the absolute error was found within it")
 	}
 	// SigFigRound must not write its argument (finding F2; shared with C12's effect analysis)
 	sp := c.P.SSAPkg("osmomath")
